@@ -87,7 +87,21 @@ func gen(rng *rand.Rand, tier core.Tier, emit core.Emit) {
 				}
 				refreshed = fmt.Sprint(t)
 			}
-			init = append(init, fmt.Sprintf("call|add!%s/%d/%d/%d/%s!refuse", a, 10481+rng.Intn(3), status, rng.Intn(3), refreshed))
+			qp, ver := 10481+rng.Intn(3), rng.Intn(3)
+			if refreshed != "z" && rng.Intn(3) == 0 {
+				// the record got here through a history in which its refresh time went BACK (two writers raced, the one
+				// with the older clock reading committed last): first stored with a later time, then with the final one
+				var t int64
+				fmt.Sscan(refreshed, &t)
+				later := t + int64(1+rng.Intn(3000))*sec
+				if rng.Intn(3) == 0 {
+					later = t + 256
+				}
+				init = append(init, fmt.Sprintf("call|add!%s/%d/%d/%d/%d!refuse", a, qp, status, ver, later),
+					fmt.Sprintf("call|update!%s/%d/%d/%d/%s!over", a, qp, status, ver+1, refreshed))
+				continue
+			}
+			init = append(init, fmt.Sprintf("call|add!%s/%d/%d/%d/%s!refuse", a, qp, status, ver, refreshed))
 		}
 		if rng.Intn(3) == 0 { // something already queued
 			init = append(init, "call|penq!9.9.9.9:1!10480!1!0!3!z!z")
